@@ -50,7 +50,8 @@ def config(draw, reuse=None):
         aliases.append([a, draw(st.sampled_from(gnames + [x for x, t in aliases]))])
     order = draw(st.permutations(list(range(sum(len(g['labels']) for g in groups)))))
     return dict(groups=groups, aliases=aliases, order=list(order), crlf=draw(st.booleans()),
-                alias_typedef=bool(aliases) or draw(st.booleans()), masktype_rows=draw(st.booleans()))
+                alias_typedef=bool(aliases) or draw(st.booleans()), masktype_rows=draw(st.booleans()),
+                cols=draw(st.sampled_from(['standard', 'standard', 'alias-swapped', 'bits-swapped', 'both-swapped'])))
 
 
 def mixcase(draw, s):
@@ -95,23 +96,31 @@ def case_strategy(draw):
 
 
 def render(cfg):
-    lines = ['#%yanny', '# generated maskbits file', '', 'typedef struct {', '    char flag[20]; # Flag name',
-             '    short bit; # Bit number, 0-indexed', '    char label[30]; # Bit label',
+    # columns are named, so their order in a typedef (and with it the order of the fields on the rows) is free
+    swap_bits = cfg.get('cols') in ('bits-swapped', 'both-swapped')
+    swap_alias = cfg.get('cols') in ('alias-swapped', 'both-swapped')
+    bits_decl = ['    char flag[20]; # Flag name', '    short bit; # Bit number, 0-indexed', '    char label[30]; # Bit label']
+    if swap_bits:
+        bits_decl = [bits_decl[2], bits_decl[0], bits_decl[1]]
+    lines = ['#%yanny', '# generated maskbits file', '', 'typedef struct {'] + bits_decl + [
              '    char description[100]; # text description', '} maskbits;', '', 'typedef struct {',
              '    char flag[20]; # Flag name', '    short datatype; # Data type {8, 16, 32, 64}',
              '    char description[100]; # text description', '} masktype;', '']
     if cfg.get('alias_typedef', True):
-        lines += ['typedef struct {', '    char flag[20]; # Flag (real) name', '    char alias[20]; # Alias',
-                  '    char description[100]; # text description', '} maskalias;', '']
+        adecl = ['    char flag[20]; # Flag (real) name', '    char alias[20]; # Alias']
+        lines += ['typedef struct {'] + (adecl[::-1] if swap_alias else adecl) + ['    char description[100]; # text description', '} maskalias;', '']
     rows = []
     for g in cfg['groups']:
         for l, b in g['labels']:
-            rows.append('maskbits %s %2d %s    "bit %d of %s; a #description"' % (g['name'], b, l, b, g['name']))
+            if swap_bits:
+                rows.append('maskbits %s %s %2d    "bit %d of %s; a #description"' % (l, g['name'], b, b, g['name']))
+            else:
+                rows.append('maskbits %s %2d %s    "bit %d of %s; a #description"' % (g['name'], b, l, b, g['name']))
     rows = [rows[i] for i in cfg['order']]
     for i, g in enumerate(cfg['groups'] if cfg.get('masktype_rows', True) else []):
         rows.insert((7 * i) % (len(rows) + 1), 'masktype %s 64 "the %s group"' % (g['name'], g['name']))
     for j, (a, t) in enumerate(cfg['aliases']):
-        rows.insert(min(3 * j + 1, len(rows)), 'maskalias %s %s "%s is a synonym for %s."' % (t, a, a, t))      # ascending positions: declaration order kept
+        rows.insert(min(3 * j + 1, len(rows)), 'maskalias %s %s "%s is a synonym for %s."' % ((a, t, a, t) if swap_alias else (t, a, a, t)))      # ascending positions: declaration order kept
     rows.insert(len(rows) // 2, '#------------------------------------------------------------------------------')
     nl = '\r\n' if cfg['crlf'] else '\n'
     return nl.join(lines + rows) + nl
